@@ -27,6 +27,14 @@ const (
 var kinds = []byte{ctrl.FErr, ctrl.FCanceled, ctrl.FDeadline, ctrl.FCancelCtx, ctrl.FCancelAfter, ctrl.FCrash, ctrl.FCommitErr}
 
 type scenario struct {
+	// Cfg0 / Pre0: an earlier deployment on the same store — a non-empty proper
+	// subset of Cfg's scanners (not a prefix in general), under which the
+	// manifests Pre0 were indexed. The store then says "scanned by some of the
+	// configured scanners" for them, so the one Libindex built for Cfg — which
+	// serves Pre, the attempts under test and the retries, as a deployment does —
+	// has to filter its scanner list per manifest.
+	Cfg0    ctrl.Config
+	Pre0    [][]int
 	Cfg     ctrl.Config
 	Pre     [][]int
 	M       []int
@@ -42,7 +50,63 @@ func (sc scenario) String() string {
 	if sc.NetDown {
 		n = " net=down"
 	}
-	return fmt.Sprintf("config=%s%s pre=[%s] manifest=%s", sc.Cfg, n, p, ctrl.LayersString(sc.M))
+	e := ""
+	if len(sc.Cfg0) > 0 {
+		p0 := ""
+		for _, m := range sc.Pre0 {
+			p0 += ctrl.LayersString(m) + ";"
+		}
+		e = fmt.Sprintf("earlier-config=%s earlier=[%s] ", sc.Cfg0, p0)
+	}
+	return fmt.Sprintf("%sconfig=%s%s pre=[%s] manifest=%s", e, sc.Cfg, n, p, ctrl.LayersString(sc.M))
+}
+
+// withEarlier gives the scenario an earlier deployment (see scenario.Cfg0).
+func withEarlier(rnd *hx.Rand, sc *scenario) {
+	names := map[string]bool{}
+	var order []string
+	for _, s := range sc.Cfg {
+		k := string(s.Kind) + "/" + s.Name
+		if !names[k] {
+			names[k] = true
+			order = append(order, k)
+		}
+	}
+	if len(order) < 2 {
+		return
+	}
+	// a scanner listed by two ecosystems stays or goes as a whole
+	keep := map[string]bool{}
+	nkeep := 0
+	for _, k := range order {
+		if rnd.Chance(1, 2) {
+			keep[k] = true
+			nkeep++
+		}
+	}
+	if nkeep == 0 {
+		keep[order[len(order)-1]] = true // the last one alone: never a prefix
+	} else if nkeep == len(order) {
+		delete(keep, order[0])
+	}
+	for _, s := range sc.Cfg {
+		if keep[string(s.Kind)+"/"+s.Name] {
+			sc.Cfg0 = append(sc.Cfg0, s)
+		}
+	}
+	for i := 1 + rnd.Intn(2); i > 0; i-- {
+		switch {
+		case rnd.Chance(1, 3):
+			sc.Pre0 = append(sc.Pre0, sc.M)
+		case len(sc.Pre) > 0 && rnd.Chance(1, 2):
+			sc.Pre0 = append(sc.Pre0, sc.Pre[rnd.Intn(len(sc.Pre))])
+		default:
+			// indexed before, and again by the deployment under test
+			m := GenManifest(rnd, 3)
+			sc.Pre0 = append(sc.Pre0, m)
+			sc.Pre = append([][]int{m}, sc.Pre...)
+		}
+	}
 }
 
 func hasFlag(cfg ctrl.Config, f byte) bool {
@@ -154,6 +218,9 @@ func genScenario(rnd *hx.Rand) scenario {
 		}
 	}
 	sc.NetDown = hasFlag(sc.Cfg, 'N') && rnd.Chance(1, 2)
+	if rnd.Chance(1, 2) {
+		withEarlier(rnd, &sc)
+	}
 	return sc
 }
 
@@ -170,6 +237,13 @@ func (c *checker) setup(sc scenario) {
 	if sc.NetDown {
 		c.s.Net(true)
 	}
+	if len(sc.Cfg0) > 0 {
+		c.s.Config(sc.Cfg0)
+		for _, m := range sc.Pre0 {
+			c.s.Index(m, ctrl.Script{}, false)
+		}
+	}
+	// from here on one Libindex (one Options value) serves everything
 	c.s.Config(sc.Cfg)
 	for _, m := range sc.Pre {
 		c.s.Index(m, ctrl.Script{}, false)
@@ -666,6 +740,9 @@ func Run(cfg hx.Config) error {
 				scn.Pre = append(scn.Pre, GenManifest(rnd, 3))
 			}
 			scn.NetDown = hasFlag(scn.Cfg, 'N') && rnd.Chance(1, 2)
+			if rnd.Chance(1, 2) {
+				withEarlier(rnd, &scn)
+			}
 			r.Count(fmt.Sprintf("sched.scenario limit=%d", limit))
 			faulty := ctrl.Script{}
 			if rnd.Chance(3, 4) {
@@ -715,6 +792,9 @@ func Run(cfg hx.Config) error {
 			sc.Pre = append(sc.Pre, GenManifest(rnd, 3))
 		}
 		sc.NetDown = hasFlag(sc.Cfg, 'N') && rnd.Chance(1, 2)
+		if rnd.Chance(1, 2) {
+			withEarlier(rnd, &sc)
+		}
 		script := ctrl.Script{rnd.Intn(110): kinds[rnd.Intn(len(kinds))]}
 		if rnd.Chance(1, 4) {
 			script[rnd.Intn(110)] = kinds[rnd.Intn(len(kinds))]
